@@ -11,8 +11,14 @@
 //     cb       = the template port's macro-generated callback
 // (the callbacks read data.port->meta(), so the run-time range takes effect)
 // and dispatches every message of the case into it, directly or below the
-// macro-generated recursion port "sub/" (rRecur).  An RtData subclass records
-// what reaches reply(const char*) / broadcast(const char*).
+// macro-generated recursion port "sub/" (rRecur) of a static top-level table
+// that also holds a parameter of its own (rParamI(tv, rLinear(-50, 50))) and
+// a second sub-tree "om/": the static table of h_C14_options.h with one
+// rOption port per argument count of rOptions(...) (kind OM).  ONE RtData
+// (subclass recording reply(const char*) / broadcast(const char*)) and one
+// location buffer serve all messages of a case, d.obj is set once - as an
+// application does - so a message into a sub-tree is followed by messages
+// that need d.obj and d.loc back where they were.
 //
 //   case:   sugar <kind> <depth> <name> <N> <mintext|-> <maxtext|-> <opts|-> <init> <ops> ...
 //     kind   P F I O OE T S1 S5 S16 AI AF AO AT PA PS CO ATM AIW    depth 0|1
@@ -21,9 +27,11 @@
 //             CO: rCOptionCb(obj->co, (obj->co_sets++, obj->co = var)), state "co,co_sets";
 //             ATM: rArrayTCbMember(atm, on), state "other,on" per element)
 //     opts   k=sym,k=sym,...      init  v,v,... (16 for arrays; hex buffer for S*)
-//     ops    q[<idx>] | s[<idx>]=<t><v>  separated by ';'
+//            OM: the static port <name> = o<n> of h_C14_options.h; <opts> must be the list declared there
+//     ops    q[<idx>] | s[<idx>]=<t><v> | t | t=i<v>  separated by ';'
+//            (t: query / set of the top-level parameter /tv, depth 1 only; its initial value is field 12)
 //            t/v: i<dec> c<dec> f<hex8> S<hexsym> s<hexstr> T F
-//   output: <msgs of op 1>;<msgs of op 2>;...#<state>
+//   output: <msgs of op 1>;<msgs of op 2>;...#<state>[@<tv> at depth 1]
 //     msgs   r|b : path : types : args   joined by '+', '-' if none, NOMATCH
 //     state  v,v,...   (floats as bit patterns, S* as the whole buffer in hex)
 #include "hcommon.h"
@@ -32,6 +40,7 @@
 #include <rtosc/rtosc.h>
 
 using namespace rtosc;
+#include "h_C14_options.h"
 
 struct RunPorts : Ports {
     RunPorts() : Ports({}) {}
@@ -109,9 +118,17 @@ static const Ports tmpl = {
 };
 #undef rObject
 
-struct Top { Obj sub; };
+struct Top {
+    uint32_t guardT0;
+    int tv;            // a parameter of the top level itself
+    uint32_t guardT1;
+    Obj sub;
+    uint32_t guardT2;
+    Opt om;
+    uint32_t guardT3;
+};
 #define rObject Top
-static const Ports top = { rRecur(sub, "d") };
+static const Ports top = { rRecur(sub, "d"), rParamI(tv, rLinear(-50, 50), "d"), rRecur(om, "d") };
 #undef rObject
 
 struct Rec : RtData {
@@ -160,12 +177,23 @@ int main()
         int depth = atoi(f[2].c_str());
         const std::string &name = f[3];
         int N = atoi(f[4].c_str());
-        static const char *kinds[] = {"P", "F", "I", "O", "T", "S1", "S5", "S16", "AI", "AF", "AO", "AT", "PA", "PS", "OE", "CO", "ATM", "AIW"};
+        static const char *kinds[] = {"P", "F", "I", "O", "T", "S1", "S5", "S16", "AI", "AF", "AO", "AT", "PA", "PS", "OE", "CO", "ATM", "AIW", "OM"};
         int k = -1;
-        for(int i = 0; i < 18; ++i) if(kind == kinds[i]) k = i;
+        for(int i = 0; i < 19; ++i) if(kind == kinds[i]) k = i;
         if(k < 0) { puts("BADCASE"); continue; }
+        const bool is_om = k == 18;
+        int om_n = 0;
+        if(is_om) {
+            // a static port of h_C14_options.h; the case must carry the list that file declares
+            om_n = name.size() > 1 && name[0] == 'o' ? atoi(name.c_str() + 1) : 0;
+            if(om_n < 1 || om_n > OPT_COUNTS) { puts("BADCASE"); continue; }
+            std::string decl;
+            int pos = 0;
+            for(auto &sym : split(opt_declared[om_n - 1], ',')) decl += (pos ? "," : "") + std::to_string(pos) + "=" + sym, ++pos;
+            if(decl != f[7]) { puts("BADCASE declared-list"); continue; }
+        }
         // PA = the array half of rParams (same callback as rArrayI), PS = its alias half
-        const Port &tp = tmpl.ports[k];
+        const Port &tp = tmpl.ports[is_om ? 3 : k];
         bool is_array = (k >= 8 && k <= 12) || k == 16 || k == 17;
         bool is_str   = (k >= 5 && k <= 7);
         int  slen     = k == 5 ? 1 : k == 6 ? 5 : 16;
@@ -191,8 +219,11 @@ int main()
 
         Top t;
         Obj &o = t.sub;
-        memset(&o, 0, sizeof(o));
+        memset(&t, 0, sizeof(t));
         for(int i = 0; i <= 14; ++i) *guards(o, i) = GUARD;
+        t.guardT0 = t.guardT1 = t.guardT2 = t.guardT3 = t.om.guardA = t.om.guardB = GUARD;
+        const int tv0 = f.size() > 12 && f[12] != "-" ? atoi(f[12].c_str()) : 0;
+        t.tv = tv0;
         // initial state
         auto iv = split(f[8], ',');
         auto geti = [&](int i) { return i < (int)iv.size() ? atoi(iv[i].c_str()) : 0; };
@@ -216,21 +247,28 @@ int main()
             case 15: o.co = geti(0); o.co_sets = geti(1); break;
             case 16: for(int i = 0; i < BACK; ++i) { o.atm[i].other = geti(2 * i); o.atm[i].on = geti(2 * i + 1) != 0; } break;
             case 17: for(int i = 0; i < BACK; ++i) o.aw[i] = geti(i); break;
+            case 18: *opt_field(t.om, om_n) = geti(0); break;
         }
 
         std::ostringstream out;
         bool firstop = true;
+        // one RtData, one location buffer, d.obj set once for the whole history
+        Rec d;
+        d.obj = depth ? (void*)&t : is_om ? (void*)&t.om : (void*)&o;
+        void *const obj0 = d.obj;
         for(auto &op : split(f[9], ';')) {
             // address
             std::string body = op.substr(1);
             std::string idx, val;
             auto eq = body.find('=');
             if(eq == std::string::npos) idx = body; else { idx = body.substr(0, eq); val = body.substr(eq + 1); }
-            std::string addr = std::string("/") + (depth ? "sub/" : "") + name + idx;
+            std::string addr = std::string("/") + (depth ? (is_om ? "om/" : "sub/") : "") + name + idx;
+            if(op[0] == 't') addr = "/tv";
             char buf[1024];
             memset(buf, 0, sizeof(buf));
             size_t len = 0;
-            if(op[0] == 'q') len = rtosc_message(buf, sizeof(buf), addr.c_str(), "");
+            if(op[0] == 't' && !depth) len = 0;
+            else if(val.empty()) len = rtosc_message(buf, sizeof(buf), addr.c_str(), "");
             else switch(val[0]) {
                 case 'i': len = rtosc_message(buf, sizeof(buf), addr.c_str(), "i", atoi(val.c_str() + 1)); break;
                 case 'c': len = rtosc_message(buf, sizeof(buf), addr.c_str(), "c", atoi(val.c_str() + 1)); break;
@@ -247,9 +285,10 @@ int main()
             firstop = false;
             if(!len) { out << "BADOP"; continue; }
             ExactBuf m(std::vector<uint8_t>(buf, buf + len));
-            Rec d;
-            if(depth) { d.obj = &t; top.dispatch((const char*)m.p, d, true); }
-            else      { d.obj = &o; Obj::ports.dispatch((const char*)m.p, d, true); }
+            d.log.clear();
+            if(depth)      top.dispatch((const char*)m.p, d, true);
+            else if(is_om) Opt::ports.dispatch((const char*)m.p, d, true);
+            else           Obj::ports.dispatch((const char*)m.p, d, true);
             if(d.matches == 0) { out << "NOMATCH"; continue; }
             if(d.log.empty()) out << "-";
             for(size_t i = 0; i < d.log.size(); ++i) {
@@ -276,8 +315,15 @@ int main()
             case 15: out << o.co << "," << o.co_sets; break;
             case 16: for(int i = 0; i < BACK; ++i) out << (i ? "," : "") << o.atm[i].other << "," << (int)o.atm[i].on; break;
             case 17: for(int i = 0; i < BACK; ++i) out << (i ? "," : "") << o.aw[i]; break;
+            case 18: out << *opt_field(t.om, om_n); break;
         }
+        if(depth) out << "@" << t.tv;
+        if(d.obj != obj0) out << " OBJ-NOT-RESTORED";
         for(int i = 0; i <= 14; ++i) if(*guards(o, i) != GUARD) out << " GUARD" << i;
+        if(t.guardT0 != GUARD || t.guardT1 != GUARD || t.guardT2 != GUARD || t.guardT3 != GUARD ||
+           t.om.guardA != GUARD || t.om.guardB != GUARD) out << " GUARDTOP";
+        if(!depth && t.tv != tv0) out << " OTHERFIELD";
+        for(int n = 1; n <= OPT_COUNTS; ++n) if(n != om_n && *opt_field(t.om, n)) { out << " OTHERFIELD"; break; }
         // every field the case's port does not own must still be zero
         {
             Obj z; memset(&z, 0, sizeof(z));
